@@ -85,6 +85,10 @@ CHECKS = {
    technique="property-based testing (rapid) over generated concurrent programs on shared parsers / profiles / base URLs, executed under the Go race detector (-race), with a sequential-equivalence oracle and table-immutability fingerprints",
    text="Generated programs of 2..8 goroutines released from one barrier run read-only operations (parse, resolve against shared bases with and without lazily created state, getters, Clone, encode, set derivation) on one shared parser or profile; the race detector's log must not grow, every result must equal the same call run alone on private copies, and all package-level tables must be unchanged.",
    ref="DESIGN.md §6 C14, §8", note="trusted base: Go race detector (happens-before), the harness in harness/props/c14.go, rapid; interleavings are those the scheduler produced, not enumerated"),
+ "C20": dict(
+   technique="property-based testing (rapid) over generated repetition families plus a fixed family table, with deterministic cost counters (bytes allocated, allocation count, statements executed via a -cover build) and a growth-exponent oracle",
+   text="For each repetition family (fixed list covering every place the statement names; generated families by insertion point, unit and operation) the measured operation is run at n, 4n and 16n and the growth exponent of bytes allocated, allocation count and (fixed families) statements executed inside the library is computed; a violation needs an exponent above 1.5 at the largest pair and above 1.4 at the pair below. Counters are deterministic; CPU time is not used.",
+   ref="DESIGN.md §6 C20, §8", note="trusted base: runtime.MemStats counters, Go coverage counters (go build -cover, runtime/coverage, go tool covdata), the family table in harness/props/c20.go"),
 }
 
 NOT_YET = {}
